@@ -1,7 +1,7 @@
 (* C03 — best match: literals beat variables, independent of registration order. *)
 From Model Require Import Str Sexp Http Template Table Curly DetectRoute Jsr311 Router.
 From Spec Require Import RouteSpec RankSpec.
-From Proofs Require Import RankProofs RankRouteProofs JsrOutcomeProofs.
+From Proofs Require Import RankProofs RankRouteProofs JsrOutcomeProofs OrderProofs.
 From Coq Require Import Permutation.
 
 (* Service level, CurlyRouter: the service SelectRoute works with has the greatest score
@@ -79,6 +79,41 @@ Theorem C03_jsr_route : C03_jsr_route_statement.
 Proof. exact jsr_invoked_not_dominated. Qed.
 Print Assumptions C03_jsr_route.
 
+(* Order independence, proved outside the tie class.  [tbl_perm t t']: t' is t with its services
+   registered in another order and, inside each service, its routes registered in another order.
+   When no two routes of one method in a service have the same path (keys_distinct: distinct
+   (method, template) pairs) and no two claiming services tie (CurlyRouter, top_unique: one
+   service has the greatest score — the complement is the class of K-C03-1; RouterJSR311,
+   jsr_keys_unique: distinct roots, and no two matching roots with equal (groups, literal
+   characters, variables) — never the case for different literal roots matching one URL), every
+   request gets the same outcome from t and t': the same
+   route function with the same parameter map from the same service, or the same error with the
+   same Allow set.  The proofs do not depend on Go's sort algorithm beyond "insertion by Less":
+   both Less relations are strict orders (byte-wise string "<" included), an insertion sort by
+   a strict order is sorted for every input order, and the first candidate passing detectRoute's
+   filters is then the greatest passing one. *)
+Definition C03_order_curly_statement : Prop :=
+  forall (O : oracles) (t t' : table) (req : request),
+    t_router t = Curly -> t_router t' = Curly ->
+    tbl_perm t t' ->
+    keys_distinct t = true ->
+    top_unique O (tokenize (rq_path req)) (t_services t) = true ->
+    routed_equiv_perm (route_request O t req) (route_request O t' req).
+Theorem C03_order_curly : C03_order_curly_statement.
+Proof. exact curly_order_independent_b. Qed.
+Print Assumptions C03_order_curly.
+
+Definition C03_order_jsr_statement : Prop :=
+  forall (O : oracles) (t t' : table) (req : request),
+    t_router t = Jsr311 -> t_router t' = Jsr311 ->
+    tbl_perm t t' ->
+    keys_distinct t = true ->
+    jsr_keys_unique O (rq_path req) (t_services t) = true ->
+    routed_equiv_perm (route_request O t req) (route_request O t' req).
+Theorem C03_order_jsr : C03_order_jsr_statement.
+Proof. exact jsr_order_independent_b. Qed.
+Print Assumptions C03_order_jsr.
+
 (* The order-independence half at full strength — "for tables with distinct (method,
    template) pairs and roots of pairwise different shape, every permutation of the
    registration order gives every request the same outcome" — is FALSE of the faithful
@@ -126,4 +161,31 @@ Example C03_route_example :
 Proof.
   intros me id rq router Hr rs Hrs. cbn in Hr, Hrs.
   destruct Hr as [<-|[<-|[]]]; destruct Hrs as [<-|[<-|[]]]; vm_compute; repeat split; eexists; reflexivity.
+Qed.
+
+(* the premises of the order theorems hold on a concrete table with crossed shapes (/a/{x} and
+   /{y}/b, the routes of seed C03-c), two services, and a request both routes match *)
+Example C03_order_example :
+  let ra := mk 1 "GET" "/a/{x}" in let rb := mk 2 "GET" "/{y}/b" in let rc := mk 3 "POST" "/a/{x}" in
+  let w := {| s_root := L "/s"; s_routes := [ra; rb; rc] |} in
+  let w' := {| s_root := L "/s"; s_routes := [rc; rb; ra] |} in
+  let v := {| s_root := L "/s/q"; s_routes := [mk 4 "GET" "/"] |} in
+  let rq := {| rq_method := L "GET"; rq_path := L "/s/a/b"; rq_headers := []; rq_clen := 0 |} in
+  forall router, In router [Curly; Jsr311] ->
+  let t := {| t_router := router; t_services := [w; v] |} in
+  let t' := {| t_router := router; t_services := [v; w'] |} in
+  tbl_perm t t'
+  /\ keys_distinct t = true
+  /\ top_unique O0 (tokenize (rq_path rq)) (t_services t) = true
+  /\ jsr_keys_unique O0 (rq_path rq) (t_services t) = true
+  /\ (exists x r ps, route_request O0 t rq = RInvoke x r ps).
+Proof.
+  intros ra rb rc w w' v rq router Hr t t'.
+  split.
+  { exists [w'; v]. split.
+    - constructor; [|constructor; [|constructor]].
+      + split; [reflexivity|]. apply Permutation_rev.
+      + split; reflexivity.
+    - apply perm_swap. }
+  destruct Hr as [<-|[<-|[]]]; vm_compute; repeat split; eexists; eexists; eexists; reflexivity.
 Qed.
